@@ -1039,6 +1039,8 @@ def c10_k5(ctx):
         if re.match(r"^option::Option::Some\{tuple\{pdu::EndOfFile::EndOfFile\{self\.condition, .*\}, const\(1\)\}\}$", txt):
             stores.add(b)
     err = {x for x, tt in f.all_calls() if (ctx.prog.callee_of(tt)[0] or "").endswith("FromResidual::from_residual")}
+    # (`Err(e) => return Err(e)` written out)
+    err |= {x for x in f.live_blocks() if any(s2["k"] == "assign" and s2["place"]["local"] == 0 and not s2["place"]["proj"] and s2["rv"]["k"] == "agg" and s2["rv"].get("variant") == "Err" for s2 in f.blocks[x]["stmts"])}
     reach = f.reachable(0, avoid=stores | err)
     rets = [x for x in reach if f.blocks[x]["term"]["k"] == "return"]
     if stores and not rets:
